@@ -32,7 +32,18 @@ def cases(seed, tier):
         yield {"family": ["plain", "structured", "structured-mixed", "predicates"][i % 4], "sub": int(rng.integers(0, 2**31))}
 
 
+def raw_bytes(a):
+    """the stored bytes of the values: field by field when the layout has padding (padding bytes carry no value and
+    numpy does not promise to copy them)"""
+    if a.dtype.names is not None and a.dtype.itemsize != sum(a.dtype.fields[n][0].itemsize for n in a.dtype.names):
+        return b"".join(np.ascontiguousarray(a[n]).tobytes() for n in a.dtype.names)
+    return a.tobytes()
+
+
 def native_bytes(a):
+    if a.dtype.names is not None and a.dtype.itemsize != sum(a.dtype.fields[n][0].itemsize for n in a.dtype.names):
+        # a layout with padding / explicit offsets: the values field by field (padding bytes carry no value)
+        return b"".join(np.ascontiguousarray(a[n]).astype(a.dtype.fields[n][0].newbyteorder("=")).tobytes() for n in a.dtype.names)
     return a.astype(a.dtype.newbyteorder("=")).tobytes()
 
 
@@ -100,7 +111,7 @@ def _o_convert(call):
         bad = "inplace=True returned a different object"
     elif not inplace and np.shares_memory(r, a):
         bad = "inplace=False result shares memory with the input"
-    elif not inplace and (a.tobytes() != pre["raw"] or a.dtype != pre["dtype"]):
+    elif not inplace and (raw_bytes(a) != pre["raw"] or a.dtype != pre["dtype"]):
         bad = "inplace=False modified the caller's array"
     else:
         if keep:
@@ -142,11 +153,11 @@ def _record(a, step=0):
         noorder = tuple(p for p, f in (("first", flags[0]), ("middle", any(flags[1:-1])), ("last", flags[-1])) if f)
         sub = any(dt.fields[n][0].shape != () for n in dt.names)
     PRE.clear()
-    PRE[id(a)] = {"dtype": dt, "shape": a.shape, "raw": a.tobytes(), "native": native_bytes(a), "orders": orders(dt),
+    PRE[id(a)] = {"dtype": dt, "shape": a.shape, "raw": raw_bytes(a), "native": native_bytes(a), "orders": orders(dt),
                   "structure": structure(dt), "has_noorder": bool(noorder), "noorder_pos": noorder, "sub": sub, "step": step}
 
 
-def _make(rng, fam):
+def _make(rng, fam, packed=False):
     shape = [(), (int(rng.integers(1, 9)),), (int(rng.integers(1, 5)), int(rng.integers(1, 4)))][int(rng.integers(0, 3))]
     if fam == "plain":
         t = PLAIN[int(rng.integers(0, len(PLAIN)))]
@@ -184,6 +195,20 @@ def _make(rng, fam):
     descr = [gen.field_descr(rng, names[i], [k], byteorders=(bo,), maxsub=2) for i, k in enumerate(kinds)]
     a = np.zeros(shape, dtype=descr)
     gen.fill(rng, a)
+    if not packed and rng.random() < .2:
+        # the same fields in a layout that is not packed: aligned (padding between fields), or a multi-field index of
+        # a wider table (a view that keeps the parent's offsets and item size)
+        if rng.random() < .5 or len(a.dtype.names) < 2:
+            b = np.zeros(shape, dtype=np.dtype(descr, align=True))
+        else:
+            keep = [n for i, n in enumerate(a.dtype.names) if i % 2 == 0 or rng.random() < .5]
+            wide = np.zeros(shape, dtype=descr + [("zz_tail", a.dtype.fields[a.dtype.names[0]][0].base.str[0] + "i8" if a.dtype.fields[a.dtype.names[0]][0].base.str[0] in "<>" else "|S3")])
+            for n in a.dtype.names:
+                wide[n] = a[n]
+            return wide[keep]
+        for n in a.dtype.names:
+            b[n] = a[n]
+        return b
     return a
 
 
@@ -211,7 +236,7 @@ def run_case(case):
                     COL.violation("C16.predicate", "predicates (big=%r little=%r) disagree with declared order %r of %s%s" % (
                         rb if e1 is None else e1, rl if e2 is None else e2, bo, sp, t), {})
         # descr_to_native
-        a = _make(rng, "structured-mixed")
+        a = _make(rng, "structured-mixed", packed=True)       # (a descr with padding entries does not name a dtype)
         d, e = probe.attempt(nu.descr_to_native, a.dtype.descr)
         try:
             okk = e is None and np.dtype(d) == a.dtype.newbyteorder("=") and [x[0] for x in d] == list(a.dtype.names) \
@@ -253,15 +278,15 @@ def run_case(case):
                 if e is not None or r is None or keep:
                     continue
                 # second application: idempotence (conversions) / restoration (byteswap)
-                first_dtype, first_raw = r.dtype, r.tobytes()
+                first_dtype, first_raw = r.dtype, raw_bytes(r)
                 _record(r, step=1)
                 r2, e2 = probe.attempt(f, r, inplace=inplace, keep_dtype=keep)
                 if e2 is not None:
                     continue
                 if fname == "byteswap":
-                    if r2.tobytes() != a0.tobytes() or r2.dtype != a0.dtype:
+                    if raw_bytes(r2) != raw_bytes(a0) or r2.dtype != a0.dtype:
                         COL.violation("C16.convert", "byteswap twice does not restore the original bytes/dtype",
                                       {"dtype": repr(a0.dtype)[:200]})
-                elif r2.dtype != first_dtype or r2.tobytes() != first_raw:
+                elif r2.dtype != first_dtype or raw_bytes(r2) != first_raw:
                     COL.violation("C16.convert", "%s is not idempotent" % fname, {"dtype": repr(a0.dtype)[:200]})
     PRE.clear()
